@@ -118,6 +118,13 @@ def run(e: Engine, rep: Report):
              'UNKNOWN / UNSPEC header - and every header the v2 parser '
              'reports the same way - would proceed with the proxy\'s own, '
              'typically trusted, address)')
+    rep.rule('V12', 'what a header parses to depends on the header alone: '
+             'no function of the module changes a module-level or '
+             'class-level container in place or rebinds a module global '
+             '(an address cache keyed on the text answers a malformed '
+             'header - the same text under the other family token - with '
+             'the address an earlier connection validated)')
+    v12(e, rep)
     rep.floor('V1', 4, 'recv_into sites')
 
 
@@ -1414,3 +1421,137 @@ def v11(e: Engine, rep: Report, g, w, ctx, where):
                      else 'the address of the connection itself'),
                   loc=d.loc(), reason='not derived from `%s` / the peer '
                   'address' % nm)
+
+
+# ---------------------------------------------------------------------- V12
+def v12(e: Engine, rep: Report):
+    from .common import _INPLACE
+    mod = None
+    fns = []
+    for f in sorted(e.p.functions.values(), key=lambda f: f.qname):
+        if f.module.name == 'slimta.util.proxyproto':
+            mod = f.module
+            fns.append(f)
+    if mod is None or not fns:
+        rep.error('anchor vanished: functions of slimta.util.proxyproto')
+        return
+    shared = {}
+    for st in mod.tree.body:
+        if isinstance(st, ast.Assign):
+            for t in st.targets:
+                if isinstance(t, ast.Name):
+                    shared[t.id] = 'module'
+        elif isinstance(st, ast.ClassDef):
+            for b in st.body:
+                if isinstance(b, ast.Assign):
+                    for t in b.targets:
+                        if isinstance(t, ast.Name):
+                            shared.setdefault(t.id, 'class')
+
+    def base_name(x):
+        """name of the shared object an expression denotes: NAME,
+        self.NAME / cls.NAME / Class.NAME (also the mangled spelling)"""
+        if isinstance(x, ast.Name):
+            return x.id if shared.get(x.id) == 'module' else None
+        if isinstance(x, ast.Attribute) and isinstance(x.value, ast.Name):
+            a = x.attr
+            for k in shared:
+                if shared[k] == 'class' and (a == k or a.endswith(k) and
+                                             k.startswith('__')):
+                    return k
+        return None
+    hits = 0
+    for f in fns:
+        rep.functions.add(f.qname)
+        rep.evaluations += 1
+        local = {a.arg for a in f.node.args.args}
+        globs = set()
+        for x in walk_own(f.node):
+            if isinstance(x, ast.Global):
+                globs |= set(x.names)
+        for x in walk_own(f.node):
+            if isinstance(x, (ast.Assign, ast.AugAssign, ast.AnnAssign)):
+                tg = x.targets if isinstance(x, ast.Assign) else [x.target]
+                for t in tg:
+                    if isinstance(t, ast.Name) and t.id not in globs:
+                        local.add(t.id)
+        for x in walk_own(f.node):
+            hit = None
+            if isinstance(x, ast.Call) and \
+                    isinstance(x.func, ast.Attribute) and \
+                    x.func.attr in _INPLACE:
+                b = base_name(x.func.value)
+                if b and not (isinstance(x.func.value, ast.Name) and
+                              b in local):
+                    hit = b
+            tg = []
+            if isinstance(x, ast.Assign):
+                tg = x.targets
+            elif isinstance(x, (ast.AugAssign, ast.AnnAssign)):
+                tg = [x.target]
+            elif isinstance(x, ast.Delete):
+                tg = x.targets
+            for t in tg:
+                b, sub = t, False
+                while isinstance(b, ast.Subscript):
+                    b, sub = b.value, True
+                if isinstance(b, ast.Name) and b.id in globs and \
+                        b.id in shared:
+                    hit = b.id
+                elif sub:
+                    nm = base_name(b)
+                    if nm and not (isinstance(b, ast.Name) and nm in local):
+                        hit = nm
+            if not hit:
+                continue
+            if isinstance(x, ast.Call) and x.func.attr in (
+                    'clear', 'pop', 'popitem', 'discard', 'remove',
+                    'popleft'):
+                continue        # eviction only forgets
+            hits += 1
+            key = None
+            if isinstance(x, ast.Assign) and len(x.targets) == 1 and \
+                    isinstance(x.targets[0], ast.Subscript) and \
+                    not isinstance(x.targets[0].value, ast.Subscript):
+                key = x.targets[0].slice
+            if key is None:
+                rep.unknown('V12', f.qname, 'in-place change of shared `%s`'
+                            % hit, 'state shared by all connections is '
+                            'changed while a header is parsed, in a way '
+                            'this rule does not read', loc=f.loc(x))
+                continue
+            knames = {y.id for y in ast.walk(key) if isinstance(y, ast.Name)}
+            # a local computed from parameters stands for them
+            deps = {}
+            for y in walk_own(f.node):
+                if isinstance(y, ast.Assign) and len(y.targets) == 1 and \
+                        isinstance(y.targets[0], ast.Name):
+                    deps.setdefault(y.targets[0].id, set()).update(
+                        z.id for z in ast.walk(y.value)
+                        if isinstance(z, ast.Name))
+            for _ in range(3):
+                for k in list(knames):
+                    knames |= deps.get(k, set())
+            params = [a.arg for a in f.node.args.args
+                      if a.arg not in ('self', 'cls')]
+            used = {y.id for y in walk_own(f.node)
+                    if isinstance(y, ast.Name) and
+                    isinstance(y.ctx, ast.Load)}
+            missing = [p0 for p0 in params if p0 in used and
+                       p0 not in knames]
+            rep.check(not missing, 'V12', f.qname,
+                      'memo `%s[%s]`' % (hit, ast.unparse(key)[:30]),
+                      '`%s` is shared by all connections and filled while a '
+                      'header is parsed under the key `%s`, which leaves out '
+                      '%s - parameters the function\'s answer depends on: a '
+                      'value remembered for a valid header is handed out for '
+                      'a malformed one with the same key (the same text '
+                      'under the other family token proceeds with a real '
+                      'address instead of the invalid one)'
+                      % (hit, ast.unparse(key)[:30], ', '.join(missing)),
+                      loc=f.loc(x), reason='the key names every parameter '
+                      'the function reads')
+    if not hits:
+        rep.ok('V12', 'slimta.util.proxyproto', 'no function changes module '
+               'or class state', reason='%d functions, %d shared names '
+               'looked at' % (len(fns), len(shared)))
